@@ -29,6 +29,12 @@ import Fcgi.Props.C07BufRead
 import Fcgi.Props.C07BufRead2
 import Fcgi.Props.C07Unbounded
 import Fcgi.Props.C07Writers
+import Fcgi.Props.C07Writers2
+import Fcgi.Props.C07Writers3
+import Fcgi.Props.C07Writers4
+import Fcgi.Props.C07ScriptFuel
+import Fcgi.Props.C07Echo
+import Fcgi.Props.C07NoFuel
 import Fcgi.Props.C08
 import Fcgi.Props.C08Inv
 import Fcgi.Props.C08Replies
@@ -36,9 +42,11 @@ import Fcgi.Props.C08Replies2
 import Fcgi.Props.C08Replies3
 import Fcgi.Props.C09
 import Fcgi.Props.C09E2E
+import Fcgi.Props.C09Gate
 import Fcgi.Props.C10
 import Fcgi.Props.C10Clone
 import Fcgi.Props.C10Clone2
+import Fcgi.Props.C10Replies
 import Fcgi.Props.C11
 import Fcgi.Props.C11E2E
 import Fcgi.Props.C11Filter
@@ -47,6 +55,7 @@ import Fcgi.Props.C11Filter3
 import Fcgi.Props.C11Filter4
 import Fcgi.Props.C11Filter4Chain
 import Fcgi.Props.E2EUnbounded
+import Fcgi.Props.C11FilterAnysize
 import Fcgi.Props.C12
 import Fcgi.Props.C12Inv
 import Fcgi.Props.C12Wf
@@ -61,6 +70,7 @@ import Fcgi.Props.C12E2E8
 import Fcgi.Props.C12E2E9
 import Fcgi.Props.C12Fuel
 import Fcgi.Props.C12Unbounded
+import Fcgi.Props.C12Chain
 import Fcgi.Props.C13
 import Fcgi.Props.C13Conn
 import Fcgi.Props.C14b
@@ -75,10 +85,9 @@ import Fcgi.Props.C15
 import Fcgi.Props.C16
 import Fcgi.Props.C17
 import Fcgi.Props.C18
+import Fcgi.Props.C18Held
 import Fcgi.Props.C19
 import Fcgi.Props.C20
-import Fcgi.Props.C11FilterAnysize
-import Fcgi.Props.C07Writers2
 
 /-!
 # Headline — one checked statement per property
@@ -104,13 +113,15 @@ error answers (arbitrary read/write splitting, transient Pendings) — faults ar
 management GetValues bodies whose undecodable tail fits the buffer; the CANONICAL handler families
 only (named per clause); single request unless a clause says otherwise.  The end-to-end conjuncts of C06, C07, C11, C12 and C14 are the
 `_unbounded` versions (`Props/C06Unbounded.lean`, `Props/C07Unbounded.lean`, `Props/E2EUnbounded.lean`,
-`Props/C12Unbounded.lean`, `Props/C14Unbounded.lean`): no bound on the wire length or the buffer size; what is left is the
-model-fuel hypothesis `hhf`: the model interprets a handler script with a per-poll fuel `1000 + …` that does not grow
-with the script, so `hhf` bounds the COST of the handler script — one unit per script operation and per output
-record: `wcost |data| + c ≤ 1000` (output records of the one `write_all`), `2·n + …` (the number of `fill_buf` /
-`consume` rounds of the `AsyncBufRead` clauses, i.e. the number of READS), `wcostAll W` / `fcost W` (the number of
-writes, flushes and output records of the two-writer clauses).  It is an artefact of the model
-(`Props/HeadlineUnb.lean`, section B), not of the crate.  `C11Clause7` is the `_anysize` table of
+`Props/C12Unbounded.lean`, `Props/C14Unbounded.lean`): no bound on the wire length or the buffer size; MODEL FUEL: the model's
+handler fuel pays for what is left of the handler script (`Model/RunLoop.lean`, `Props/C07ScriptFuel.lean`: the fuel
+guard is unreachable for every script), so no statement about the model NEEDS a fuel hypothesis any more.  `hhf` is
+GONE from the core family (C07 Clauses 1–4, `Props/C07NoFuel.lean`: single request of every role, k keep-alive
+requests) and from the echo Responder (C07 Clause 21).  It REMAINS, as an artefact of the proofs only (removable by the
+recipe of `Proofs/E2ENoFuel.lean`), in: C07 Clauses 6, 8 (`wcost |data| + c ≤ 1000`), 10–12 (`2·n + …`: the number of
+`fill_buf`/`consume` rounds), 13–20 (`wcostAll W` / `fcost W`: writes, flushes, output records); C11 Clause 5 and the
+follow-up requests `Sent.OKu` of C11 Clauses 1, 6, 9; C12 Clauses 1–3, 5, 9, 10, 12, 13; C14 Clauses 1–2.
+`C11Clause7` is the `_anysize` table of
 `Props/C11FilterAnysize.lean` (no `|Stdin wire| ≤ 31000`).
 
 So this file type-checks only as long as the cited theorems keep stating what is written here.
@@ -1481,24 +1492,29 @@ end Fcgi.Headline
 * “for every way the transport splits or delays reads and writes; handler families” — every e2e clause: `Ben
   t` (arbitrary splitting, transient Pendings, no faults) and the canonical handler family: `readAll` + one
   Stdout `write_all` + `ret` (Clauses 1–4), non-reading / prefix-reading (6–9), `AsyncBufRead` handlers
-  (Clauses 10–12), two writers with any sequence of `write_all`s and `flush`es (Clauses 13–16,
-  `Props/C07Writers.lean`, `C07Writers2.lean`).  All e2e clauses are size-free (`Props/C07Unbounded.lean`,
-  `Props/E2EUnbounded.lean`): no bound on the wire length or the buffer; `hhf` is the model's per-poll
-  handler fuel, which does not grow with the script: it bounds the COST of the handler script — one unit per
-  operation and per output record: `wcost |data|` (Clauses 1–3, 6, 8), the number of `fill_buf`/`consume`
-  rounds `2·n` (Clauses 10–12; Clause 10 also needs `|content| ≤ n`), the number of writes, flushes and
-  output records `wcostAll W` / `fcost W` (Clauses 13–16).  Clauses 15–16 also need `hfl` (no error among
-  the flush answers); Clause 15 also needs `hmore` (later scripts propagate errors; forced by the proof — in the chain
-  theorem of Clause 16 it holds by construction).
+  (Clauses 10–12), two writers with any sequence of `write_all`s and `flush`es (Clauses 13–20,
+  `Props/C07Writers.lean` … `C07Writers4.lean`; 17–18, 20: a Filter), the echo Responder — writes
+  interleaved with reads (Clauses 21–22, `Props/C07Echo.lean`).  All e2e clauses are size-free: no bound on
+  the wire length or the buffer.  MODEL FUEL: since the model's handler fuel pays for what is left of the
+  handler script (`Props/C07ScriptFuel.lean`), Clauses 1–4 (`Props/C07NoFuel.lean`) and 21 have NO fuel
+  hypothesis; in the other clauses `hhf` is still in the statement but is now an artefact of their PROOFS
+  only (removable by the recipe of `Proofs/E2ENoFuel.lean`): `wcost |data| + c ≤ 1000` (Clauses 6, 8), the
+  number of `fill_buf`/`consume` rounds `2·n + …` (Clauses 10–12; Clause 10 also needs `|content| ≤ n`), the
+  number of writes, flushes and output records `wcostAll W` / `fcost W` (Clauses 13–20).  Clauses 15–20 also
+  need `hfl` (no error among the flush answers); Clauses 15 and 17 also need `hmore` (later scripts
+  propagate errors; forced by the proof — in the chain theorems of Clauses 16 and 18 it holds by
+  construction); Clauses 19–20 are Clauses 15 and 17 WITHOUT `hmore` (`E2E.stepConn_fs`).  Clause 21: reads
+  of ONE byte (`m = 1`: the unrolled script is then independent of the transport's chunking) and `hquiet`
+  (the noise inside Stdin owes no reply — the read simulation has no ledger for replies interleaved with
+  handler records).
 
 **The conjuncts of `C07_headline`.**
-1. `C07E.single_request_e2e_unbounded` — Responder, canonical handler, any benign transport, ANY wire
-   length: one handler start with the spec request, reads = stream content, log = replies ++ Stdout ++ replies
-   ++ [Stdout∅, Stderr∅, EndRequest(id, st)], RET or parked (no size bound on the wire:
-   `Props/C07Unbounded.lean`)
-2. `C07E.single_request_e2e_authorizer_unbounded` — the same for an Authorizer
-3. `C07E.single_request_e2e_filter_unbounded` — the same for a Filter (two input streams)
-4. `C07E.k_requests_e2e_unbounded` — k keep-alive requests of mixed roles on one connection, closed-loop
+1. `C07E.single_request_e2e_nofuel` — Responder, canonical handler, any benign transport, ANY wire length:
+   one handler start with the spec request, reads = stream content, log = replies ++ Stdout ++ replies ++
+   [Stdout∅, Stderr∅, EndRequest(id, st)], RET or parked (no size bound on the wire: `Props/C07Unbounded.lean`)
+2. `C07E.single_request_e2e_authorizer_nofuel` — the same for an Authorizer
+3. `C07E.single_request_e2e_filter_nofuel` — the same for a Filter (two input streams)
+4. `C07E.k_requests_e2e_nofuel` — k keep-alive requests of mixed roles on one connection, closed-loop
    client, no size bound
 5. `HeadlineExtra.C07_reuse_only_with_keepconn` = `C07.reuse_iff` + `C07.close_writes_epilogue` — the
    connection goes on from `close` ONLY IF the request had KEEP_CONN, no writer was alive, and `close` wrote
@@ -1522,6 +1538,16 @@ end Fcgi.Headline
 15. `C07W.single_request_writers_flush_e2e` — … with `flush` calls anywhere in the script and arbitrary
    Pending/Ok flush answers: a flush contributes no byte
 16. `C07W.writers_flush_chain_e2e` — … chain step of the flush variant
+17. `C07W.filter_writers_flush_e2e` — the same for a FILTER: reads Stdin, switches to Data, reads Data, then
+   any `write_all`/`flush` script on two writers
+18. `C07W.filter_writers_flush_chain_e2e` — … chain step
+19. `C07W.single_request_writers_flush_e2e_nomore` — Clause 15 WITHOUT the hypothesis on the later handler
+   scripts (`hmore`)
+20. `C07W.filter_writers_flush_e2e_nomore` — Clause 17 without `hmore`
+21. `C07W.echo_responder_e2e` — the ECHO Responder — writes INTERLEAVED with reads (`read(1)`; `write_all`
+   of that byte; …): one Stdout record per content byte, in order; restrictions: reads of 1 byte, Stdin noise
+   that owes no reply (`hquiet`); no fuel hypothesis
+22. `C07W.payloads_echo` — … and the concatenated Stdout payloads ARE the Stdin content
 
 **Modelling assumptions (obligations.json).**
 * executor fairness, real sockets and wakers beyond the harness' flag/counting wakers are outside the model
@@ -1533,8 +1559,9 @@ end Fcgi.Headline
   `data` to Stdou…
 
 **Not proved as theorems — carried by the differential run + oracle, or trusted.**
-* handlers outside those families (more than two writers, writes interleaved with reads, writers kept alive
-  at return) and transports with faults (C12) are enumerated by the differential run + oracle
+* handlers outside those families (more than two writers, writers kept alive at return; writes interleaved
+  with reads only PARTIALLY: the echo Responder of Clauses 21–22 with 1-byte reads and reply-free Stdin
+  noise) and transports with faults (C12) are enumerated by the differential run + oracle
 * executor fairness, real sockets and wakers are outside the model
 
 -/
@@ -1542,7 +1569,7 @@ end Fcgi.Headline
 section
 namespace Fcgi.C07E
 open Fcgi Fcgi.Req Fcgi.Str Fcgi.Async Fcgi.Run Fcgi.Spec Fcgi.E2E
-/-- Responder, canonical handler, any benign transport, ANY wire length: one handler start with the spec request, reads = stream content, log = replies ++ Stdout ++ replies ++ [Stdout∅, Stderr∅, EndRequest(id, st)], RET or parked (no size bound on the wire: `Props/C07Unbounded.lean`)  (= `Fcgi.C07E.single_request_e2e_unbounded`, `Props/C07Unbounded.lean`) -/
+/-- Responder, canonical handler, any benign transport, ANY wire length: one handler start with the spec request, reads = stream content, log = replies ++ Stdout ++ replies ++ [Stdout∅, Stderr∅, EndRequest(id, st)], RET or parked (no size bound on the wire: `Props/C07Unbounded.lean`)  (= `Fcgi.C07E.single_request_e2e_nofuel`, `Props/C07NoFuel.lean`) -/
 def C07Clause1 : Prop :=
   ∀ {p : Preamble} {recs : List Rec} {content : Bytes} {srecs : List Rec}
     {b mc : Nat} {data : Bytes} {st : ExitStatus} {t : Transport} {fuel : Nat}
@@ -1551,15 +1578,14 @@ def C07Clause1 : Prop :=
     (hnoise : NoiseFits (alignedBufsize b) recs)
     (hs : StreamRecs p.id 5 content srecs) (hsn : NoiseFits (alignedBufsize b) srecs)
     (hin : t.input = serAll recs ++ serAll srecs) (hben : Ben t) (hev : hsCount t.events = 0)
-    (hfuel : t.rd.length + t.wr.length + 1 ≤ fuel)
-    (hhf : wcost data.length + 12 ≤ 1000),
+    (hfuel : t.rd.length + t.wr.length + 1 ≤ fuel),
     ∃ c' fin O₁ O₂, runTask fuel (conn0 b mc t data st) 0 none = (c', fin) ∧
       O₁ ++ O₂ = owedStream p.id 5 mc srecs ∧
       OutcomeN p content b mc t.wlog (expectedLogN p recs mc data st O₁ O₂) t c' fin
 
 theorem C07Clause1_holds : C07Clause1 := by
   unfold C07Clause1
-  exact @single_request_e2e_unbounded
+  exact @single_request_e2e_nofuel
 
 end Fcgi.C07E
 end
@@ -1567,7 +1593,7 @@ end
 section
 namespace Fcgi.C07E
 open Fcgi Fcgi.Req Fcgi.Str Fcgi.Async Fcgi.Run Fcgi.Spec Fcgi.E2E
-/-- the same for an Authorizer  (= `Fcgi.C07E.single_request_e2e_authorizer_unbounded`, `Props/C07Unbounded.lean`) -/
+/-- the same for an Authorizer  (= `Fcgi.C07E.single_request_e2e_authorizer_nofuel`, `Props/C07NoFuel.lean`) -/
 def C07Clause2 : Prop :=
   ∀ {p : Preamble} {recs : List Rec}
     {b mc : Nat} {data : Bytes} {st : ExitStatus} {t : Transport} {fuel : Nat}
@@ -1575,14 +1601,13 @@ def C07Clause2 : Prop :=
     (hpairs : ∀ q ∈ p.pairs, (NV.enc q).length ≤ alignedBufsize b)
     (hnoise : NoiseFits (alignedBufsize b) recs)
     (hin : t.input = serAll recs) (hben : Ben t) (hev : hsCount t.events = 0)
-    (hfuel : t.rd.length + t.wr.length + 1 ≤ fuel)
-    (hhf : wcost data.length + 4 ≤ 1000),
+    (hfuel : t.rd.length + t.wr.length + 1 ≤ fuel),
     ∃ c' fin, runTask fuel (connS b mc t [(canonicalA data st, true)]) 0 none = (c', fin) ∧
       OutcomeG p [] b mc t.wlog (expectedLog p recs mc data st) t c' fin
 
 theorem C07Clause2_holds : C07Clause2 := by
   unfold C07Clause2
-  exact @single_request_e2e_authorizer_unbounded
+  exact @single_request_e2e_authorizer_nofuel
 
 end Fcgi.C07E
 end
@@ -1590,7 +1615,7 @@ end
 section
 namespace Fcgi.C07E
 open Fcgi Fcgi.Req Fcgi.Str Fcgi.Async Fcgi.Run Fcgi.Spec Fcgi.E2E
-/-- the same for a Filter (two input streams)  (= `Fcgi.C07E.single_request_e2e_filter_unbounded`, `Props/C07Unbounded.lean`) -/
+/-- the same for a Filter (two input streams)  (= `Fcgi.C07E.single_request_e2e_filter_nofuel`, `Props/C07NoFuel.lean`) -/
 def C07Clause3 : Prop :=
   ∀ {p : Preamble} {recs : List Rec} {content : Bytes} {srecs : List Rec}
     {content2 : Bytes} {drecs : List Rec}
@@ -1601,15 +1626,14 @@ def C07Clause3 : Prop :=
     (hs : StreamRecs p.id 5 content srecs) (hsn : NoiseFits (alignedBufsize b) srecs)
     (hd : StreamRecs p.id 8 content2 drecs) (hdn : NoiseFits (alignedBufsize b) drecs)
     (hin : t.input = serAll recs ++ (serAll srecs ++ serAll drecs)) (hben : Ben t) (hev : hsCount t.events = 0)
-    (hfuel : t.rd.length + t.wr.length + 1 ≤ fuel)
-    (hhf : wcost data.length + 24 ≤ 1000),
+    (hfuel : t.rd.length + t.wr.length + 1 ≤ fuel),
     ∃ c' fin O₁ O₂, runTask fuel (connS b mc t [(canonicalF data st, true)]) 0 none = (c', fin) ∧
       O₁ ++ O₂ = owedStream p.id 5 mc srecs ++ owedStream p.id 8 mc drecs ∧
       OutcomeG p [content, content2] b mc t.wlog (expectedLogN p recs mc data st O₁ O₂) t c' fin
 
 theorem C07Clause3_holds : C07Clause3 := by
   unfold C07Clause3
-  exact @single_request_e2e_filter_unbounded
+  exact @single_request_e2e_filter_nofuel
 
 end Fcgi.C07E
 end
@@ -1617,10 +1641,10 @@ end
 section
 namespace Fcgi.C07E
 open Fcgi Fcgi.Req Fcgi.Str Fcgi.Async Fcgi.Run Fcgi.Spec Fcgi.E2E
-/-- k keep-alive requests of mixed roles on one connection, closed-loop client, no size bound  (= `Fcgi.C07E.k_requests_e2e_unbounded`, `Props/C07Unbounded.lean`) -/
+/-- k keep-alive requests of mixed roles on one connection, closed-loop client, no size bound  (= `Fcgi.C07E.k_requests_e2e_nofuel`, `Props/C07NoFuel.lean`) -/
 def C07Clause4 : Prop :=
   ∀ {b mc : Nat} (q : Sent) (qs : List Sent) {t : Transport} {fuel : Nat}
-    (hok : ∀ q' ∈ q :: qs, q'.OKu b)
+    (hok : ∀ q' ∈ q :: qs, q'.OKn b)
     (hkeep : ∀ q' ∈ (q :: qs).dropLast, q'.p.flags.toNat % 2 = 1)
     (hin : t.input = q.wire) (hben : Ben t) (hem : t.endMode = .pend) (hev : hsCount t.events = 0)
     (hfuel : t.rd.length + t.wr.length + 1 ≤ fuel),
@@ -1636,7 +1660,7 @@ def C07Clause4 : Prop :=
 
 theorem C07Clause4_holds : C07Clause4 := by
   unfold C07Clause4
-  exact @k_requests_e2e_unbounded
+  exact @k_requests_e2e_nofuel
 
 end Fcgi.C07E
 end
@@ -1972,6 +1996,170 @@ theorem C07Clause16_holds : C07Clause16 := by
 end Fcgi.C07W
 end
 
+section
+namespace Fcgi.C07W
+open Fcgi Fcgi.Req Fcgi.Str Fcgi.Async Fcgi.Run Fcgi.Spec Fcgi.E2E Fcgi.C07E Fcgi.C07U Fcgi.C07B
+/-- the same for a FILTER: reads Stdin, switches to Data, reads Data, then any `write_all`/`flush` script on two writers  (= `Fcgi.C07W.filter_writers_flush_e2e`, `Props/C07Writers3.lean`) -/
+def C07Clause17 : Prop :=
+  ∀ {p : Preamble} {recs : List Rec} {content : Bytes} {srecs : List Rec}
+    {content2 : Bytes} {drecs : List Rec}
+    {b mc : Nat} {W : FList} {st : ExitStatus} {more : List (List HOp × Bool)} {t : Transport} {fuel : Nat}
+    (hwf : WellFormedPreamble p recs) (hrole : p.role = 3)
+    (hpairs : ∀ q ∈ p.pairs, (NV.enc q).length ≤ alignedBufsize b)
+    (hnoise : NoiseFits (alignedBufsize b) recs)
+    (hs : StreamRecs p.id 5 content srecs) (hsn : NoiseFits (alignedBufsize b) srecs)
+    (hd : StreamRecs p.id 8 content2 drecs) (hdn : NoiseFits (alignedBufsize b) drecs)
+    (hin : t.input = serAll recs ++ (serAll srecs ++ serAll drecs)) (hben : Ben t) (hev : hsCount t.events = 0)
+    (hfl : ∀ a ∈ t.fl, a ≠ FlAns.err) (hmore : ∀ s ∈ more, s.2 = true)
+    (hfuel : t.rd.length + t.wr.length + t.fl.length + 1 ≤ fuel)
+    (hhf : fcost W + 40 ≤ 1000),
+    ∃ c' fin O₁ O₂ pad2 res2,
+      runTask fuel (connS b mc t ((ffscriptW W st, true) :: more)) 0 none = (c', fin) ∧
+      O₁ ++ O₂ = owedStream p.id 5 mc srecs ++ owedStream p.id 8 mc drecs ∧
+      FilterWritersOutcome p recs content content2 (E2E.writesOf W) O₁ O₂ pad2 res2 b mc st more t c' fin
+
+theorem C07Clause17_holds : C07Clause17 := by
+  unfold C07Clause17
+  exact @filter_writers_flush_e2e
+
+end Fcgi.C07W
+end
+
+section
+namespace Fcgi.C07W
+open Fcgi Fcgi.Req Fcgi.Str Fcgi.Async Fcgi.Run Fcgi.Spec Fcgi.E2E Fcgi.C07E Fcgi.C07U Fcgi.C07B
+/-- … chain step  (= `Fcgi.C07W.filter_writers_flush_chain_e2e`, `Props/C07Writers3.lean`) -/
+def C07Clause18 : Prop :=
+  ∀ {p : Preamble} {recs : List Rec} {content : Bytes} {srecs : List Rec}
+    {content2 : Bytes} {drecs : List Rec}
+    {b mc : Nat} {W : FList} {st : ExitStatus} (x : UReq) (xs : List UReq) {t : Transport} {fuel : Nat}
+    (hwf : WellFormedPreamble p recs) (hrole : p.role = 3) (hk : p.flags.toNat % 2 = 1)
+    (hpairs : ∀ q ∈ p.pairs, (NV.enc q).length ≤ alignedBufsize b)
+    (hnoise : NoiseFits (alignedBufsize b) recs)
+    (hs : StreamRecs p.id 5 content srecs) (hsn : NoiseFits (alignedBufsize b) srecs)
+    (hd : StreamRecs p.id 8 content2 drecs) (hdn : NoiseFits (alignedBufsize b) drecs)
+    (hok : ∀ y ∈ x :: xs, y.OKu b)
+    (hin : t.input = serAll recs ++ (serAll srecs ++ serAll drecs)) (hben : Ben t) (hem : t.endMode = .pend)
+    (hev : hsCount t.events = 0) (hfl : ∀ a ∈ t.fl, a ≠ FlAns.err)
+    (hfuel : t.rd.length + t.wr.length + t.fl.length + 1 ≤ fuel)
+    (hhf : fcost W + 40 ≤ 1000),
+    ∃ c' O₁ O₂ A,
+      closedLoop fuel ((x :: xs).map UReq.wire)
+        (connS b mc t ((ffscriptW W st, true) :: (x :: xs).map UReq.handler)) 0 = (c', "STALL") ∧
+      O₁ ++ O₂ = owedStream p.id 5 mc srecs ++ owedStream p.id 8 mc drecs ∧
+      SegsAll mc (x :: xs) A ∧
+      c'.env.tr.wlog = t.wlog ++ expectedLogW p recs mc (E2E.writesOf W) st O₁ O₂ ++ A ∧
+      hsCount c'.env.tr.events = 1 + (x :: xs).length ∧
+      startEvent p.request ∈ c'.env.tr.events ∧ readEvent content ∈ c'.env.tr.events ∧
+      readEvent content2 ∈ c'.env.tr.events ∧
+      (∀ y ∈ x :: xs, startEvent y.p.request ∈ c'.env.tr.events) ∧ c'.scripts = [] ∧
+      c'.env.tr.input = [] ∧
+      c'.phase = .parseReq (track (alignedBufsize b) mc (serAll ((x :: xs).getLast (by simp)).left)) .reading
+
+theorem C07Clause18_holds : C07Clause18 := by
+  unfold C07Clause18
+  exact @filter_writers_flush_chain_e2e
+
+end Fcgi.C07W
+end
+
+section
+namespace Fcgi.C07W
+open Fcgi Fcgi.Req Fcgi.Str Fcgi.Async Fcgi.Run Fcgi.Spec Fcgi.E2E Fcgi.C07E Fcgi.C07U Fcgi.C07B
+/-- Clause 15 WITHOUT the hypothesis on the later handler scripts (`hmore`)  (= `Fcgi.C07W.single_request_writers_flush_e2e_nomore`, `Props/C07Writers4.lean`) -/
+def C07Clause19 : Prop :=
+  ∀ {p : Preamble} {recs : List Rec} {content : Bytes} {srecs : List Rec}
+    {b mc : Nat} {W : FList} {st : ExitStatus} {more : List (List HOp × Bool)} {t : Transport} {fuel : Nat}
+    (hwf : WellFormedPreamble p recs) (hrole : p.role = 1)
+    (hpairs : ∀ q ∈ p.pairs, (NV.enc q).length ≤ alignedBufsize b)
+    (hnoise : NoiseFits (alignedBufsize b) recs)
+    (hs : StreamRecs p.id 5 content srecs) (hsn : NoiseFits (alignedBufsize b) srecs)
+    (hin : t.input = serAll recs ++ serAll srecs) (hben : Ben t) (hev : hsCount t.events = 0)
+    (hfl : ∀ a ∈ t.fl, a ≠ FlAns.err)
+    (hfuel : t.rd.length + t.wr.length + t.fl.length + 1 ≤ fuel)
+    (hhf : fcost W + 20 ≤ 1000),
+    ∃ c' fin O₁ O₂ pad res,
+      runTask fuel (connS b mc t ((fscriptW W st, true) :: more)) 0 none = (c', fin) ∧
+      O₁ ++ O₂ = owedStream p.id 5 mc srecs ∧
+      WritersOutcome p recs content (E2E.writesOf W) O₁ O₂ pad res b mc st more t c' fin
+
+theorem C07Clause19_holds : C07Clause19 := by
+  unfold C07Clause19
+  exact @single_request_writers_flush_e2e_nomore
+
+end Fcgi.C07W
+end
+
+section
+namespace Fcgi.C07W
+open Fcgi Fcgi.Req Fcgi.Str Fcgi.Async Fcgi.Run Fcgi.Spec Fcgi.E2E Fcgi.C07E Fcgi.C07U Fcgi.C07B
+/-- Clause 17 without `hmore`  (= `Fcgi.C07W.filter_writers_flush_e2e_nomore`, `Props/C07Writers4.lean`) -/
+def C07Clause20 : Prop :=
+  ∀ {p : Preamble} {recs : List Rec} {content : Bytes} {srecs : List Rec}
+    {content2 : Bytes} {drecs : List Rec}
+    {b mc : Nat} {W : FList} {st : ExitStatus} {more : List (List HOp × Bool)} {t : Transport} {fuel : Nat}
+    (hwf : WellFormedPreamble p recs) (hrole : p.role = 3)
+    (hpairs : ∀ q ∈ p.pairs, (NV.enc q).length ≤ alignedBufsize b)
+    (hnoise : NoiseFits (alignedBufsize b) recs)
+    (hs : StreamRecs p.id 5 content srecs) (hsn : NoiseFits (alignedBufsize b) srecs)
+    (hd : StreamRecs p.id 8 content2 drecs) (hdn : NoiseFits (alignedBufsize b) drecs)
+    (hin : t.input = serAll recs ++ (serAll srecs ++ serAll drecs)) (hben : Ben t) (hev : hsCount t.events = 0)
+    (hfl : ∀ a ∈ t.fl, a ≠ FlAns.err)
+    (hfuel : t.rd.length + t.wr.length + t.fl.length + 1 ≤ fuel)
+    (hhf : fcost W + 40 ≤ 1000),
+    ∃ c' fin O₁ O₂ pad2 res2,
+      runTask fuel (connS b mc t ((ffscriptW W st, true) :: more)) 0 none = (c', fin) ∧
+      O₁ ++ O₂ = owedStream p.id 5 mc srecs ++ owedStream p.id 8 mc drecs ∧
+      FilterWritersOutcome p recs content content2 (E2E.writesOf W) O₁ O₂ pad2 res2 b mc st more t c' fin
+
+theorem C07Clause20_holds : C07Clause20 := by
+  unfold C07Clause20
+  exact @filter_writers_flush_e2e_nomore
+
+end Fcgi.C07W
+end
+
+section
+namespace Fcgi.C07W
+open Fcgi Fcgi.Req Fcgi.Str Fcgi.Async Fcgi.Run Fcgi.Spec Fcgi.E2E Fcgi.C07E Fcgi.C07U Fcgi.C07B
+/-- the ECHO Responder — writes INTERLEAVED with reads (`read(1)`; `write_all` of that byte; …): one Stdout record per content byte, in order; restrictions: reads of 1 byte, Stdin noise that owes no reply (`hquiet`); no fuel hypothesis  (= `Fcgi.C07W.echo_responder_e2e`, `Props/C07Echo.lean`) -/
+def C07Clause21 : Prop :=
+  ∀ {p : Preamble} {recs : List Rec} {content : Bytes} {srecs : List Rec}
+    {b mc : Nat} {st : ExitStatus} {more : List (List HOp × Bool)} {t : Transport} {fuel : Nat}
+    (hwf : WellFormedPreamble p recs) (hrole : p.role = 1)
+    (hpairs : ∀ q ∈ p.pairs, (NV.enc q).length ≤ alignedBufsize b)
+    (hnoise : NoiseFits (alignedBufsize b) recs)
+    (hs : StreamRecs p.id 5 content srecs) (hsn : NoiseFits (alignedBufsize b) srecs)
+    (hin : t.input = serAll recs ++ serAll srecs) (hben : Ben t) (hev : hsCount t.events = 0)
+    (hfuel : t.rd.length + t.wr.length + 1 ≤ fuel)
+    (hquiet : owedStream p.id 5 mc srecs = []),
+    ∃ c' fin pad res,
+      runTask fuel (connS b mc t ((echoScript content st, true) :: more)) 0 none = (c', fin) ∧
+      EchoOutcome p recs content pad res b mc st more t c' fin
+
+theorem C07Clause21_holds : C07Clause21 := by
+  unfold C07Clause21
+  exact @echo_responder_e2e
+
+end Fcgi.C07W
+end
+
+section
+namespace Fcgi.C07W
+open Fcgi Fcgi.Req Fcgi.Str Fcgi.Async Fcgi.Run Fcgi.Spec Fcgi.E2E Fcgi.C07E Fcgi.C07U Fcgi.C07B
+/-- … and the concatenated Stdout payloads ARE the Stdin content  (= `Fcgi.C07W.payloads_echo`, `Props/C07Echo.lean`) -/
+def C07Clause22 : Prop :=
+  ∀ (id : Nat) (content : Bytes),
+    echoRecords id content = (content.map fun b => recordOf 6 id [b]).flatten ∧
+    (content.map fun b => [b]).flatten = content
+
+theorem C07Clause22_holds : C07Clause22 := by
+  unfold C07Clause22
+  exact @payloads_echo
+
+end Fcgi.C07W
+end
+
 namespace Fcgi.Headline
 /-- **C07** — see the section comment above for the clause-by-clause reading. -/
 theorem C07_headline :
@@ -1990,8 +2178,14 @@ theorem C07_headline :
     Fcgi.C07W.C07Clause13 ∧
     Fcgi.C07W.C07Clause14 ∧
     Fcgi.C07W.C07Clause15 ∧
-    Fcgi.C07W.C07Clause16 :=
-  ⟨Fcgi.C07E.C07Clause1_holds, Fcgi.C07E.C07Clause2_holds, Fcgi.C07E.C07Clause3_holds, Fcgi.C07E.C07Clause4_holds, Fcgi.Headline.C07Clause5_holds, Fcgi.C07U.C07Clause6_holds, Fcgi.C07U.C07Clause7_holds, Fcgi.C07U.C07Clause8_holds, Fcgi.C07U.C07Clause9_holds, Fcgi.C07B.C07Clause10_holds, Fcgi.C07B.C07Clause11_holds, Fcgi.C07B.C07Clause12_holds, Fcgi.C07W.C07Clause13_holds, Fcgi.C07W.C07Clause14_holds, Fcgi.C07W.C07Clause15_holds, Fcgi.C07W.C07Clause16_holds⟩
+    Fcgi.C07W.C07Clause16 ∧
+    Fcgi.C07W.C07Clause17 ∧
+    Fcgi.C07W.C07Clause18 ∧
+    Fcgi.C07W.C07Clause19 ∧
+    Fcgi.C07W.C07Clause20 ∧
+    Fcgi.C07W.C07Clause21 ∧
+    Fcgi.C07W.C07Clause22 :=
+  ⟨Fcgi.C07E.C07Clause1_holds, Fcgi.C07E.C07Clause2_holds, Fcgi.C07E.C07Clause3_holds, Fcgi.C07E.C07Clause4_holds, Fcgi.Headline.C07Clause5_holds, Fcgi.C07U.C07Clause6_holds, Fcgi.C07U.C07Clause7_holds, Fcgi.C07U.C07Clause8_holds, Fcgi.C07U.C07Clause9_holds, Fcgi.C07B.C07Clause10_holds, Fcgi.C07B.C07Clause11_holds, Fcgi.C07B.C07Clause12_holds, Fcgi.C07W.C07Clause13_holds, Fcgi.C07W.C07Clause14_holds, Fcgi.C07W.C07Clause15_holds, Fcgi.C07W.C07Clause16_holds, Fcgi.C07W.C07Clause17_holds, Fcgi.C07W.C07Clause18_holds, Fcgi.C07W.C07Clause19_holds, Fcgi.C07W.C07Clause20_holds, Fcgi.C07W.C07Clause21_holds, Fcgi.C07W.C07Clause22_holds⟩
 end Fcgi.Headline
 
 
@@ -2349,6 +2543,12 @@ end Fcgi.Headline
 9. `C09E.filter_select_not_writeable` — a Filter that has only selected Data (nothing read yet) is not
    writeable
 10. `C09E.eof_persists` — after the end `read` returns 0 for good
+11. `C09G.filter_gate_e2e` — END TO END, Filter whose handler awaits `writeable()` without reading: every
+   poll before the gate poll ends Pending with no writer and only owed replies in the log; the gate poll passes
+   `writeable()` in a state `GateAt`
+12. `C09G.gateAt_facts` — … `GateAt`: the request is writeable, the COMPLETE Stdin stream incl. its
+   terminator was taken from the transport, the log holds no handler byte
+13. `C09G.wh_facts` — … before the gate (`WH`): no writer exists, not writeable, log = owed replies only
 
 **Modelling assumptions (obligations.json).**
 * real wakers are not modelled at the poll level (the harness polls when the script says so)
@@ -2362,6 +2562,9 @@ end Fcgi.Headline
 
 **Not proved as theorems — carried by the differential run + oracle, or trusted.**
 * real wakers are not modelled at the poll level
+* Clauses 11–13 (`filter_gate_e2e`): the run AFTER the gate poll is not covered (handler records and parser
+  replies interleave; no ledger for that in `Proofs/E2EStr`); hypotheses: canonical Filter wire within the
+  buffer bound, `Ben t`, handler script `.writeable :: rest` with arbitrary `rest`
 
 -/
 
@@ -2557,6 +2760,65 @@ end Main
 end Fcgi.C09E
 end
 
+section
+namespace Fcgi.C09G
+open Fcgi Fcgi.Req Fcgi.Str Fcgi.Async Fcgi.Run Fcgi.Spec Fcgi.E2E Fcgi.C07E Fcgi.C07U
+/-- END TO END, Filter whose handler awaits `writeable()` without reading: every poll before the gate poll ends Pending with no writer and only owed replies in the log; the gate poll passes `writeable()` in a state `GateAt`  (= `Fcgi.C09G.filter_gate_e2e`, `Props/C09Gate.lean`) -/
+def C09Clause11 : Prop :=
+  ∀ {p : Preamble} {recs : List Rec} {content : Bytes} {srecs : List Rec}
+    {content2 : Bytes} {drecs : List Rec}
+    {b mc : Nat} {rest : List HOp} {more : List (List HOp × Bool)} {t : Transport}
+    (hwf : WellFormedPreamble p recs) (hrole : p.role = 3)
+    (hpairs : ∀ q ∈ p.pairs, (NV.enc q).length ≤ alignedBufsize b)
+    (hnoise : NoiseFits (alignedBufsize b) recs)
+    (hs : StreamRecs p.id 5 content srecs) (hsn : NoiseFits (alignedBufsize b) srecs)
+    (hd : StreamRecs p.id 8 content2 drecs) (hdn : NoiseFits (alignedBufsize b) drecs)
+    (hin : t.input = serAll recs ++ (serAll srecs ++ serAll drecs)) (hben : Ben t) (hev : hsCount t.events = 0),
+    ∃ (g : E2E.Cfg) (k : Nat), g.p = p ∧ g.R = srecs ∧ g.R2 = drecs ∧ g.L0 = t.wlog ∧ k ≤ t.rd.length + t.wr.length ∧
+      (∀ j, j ≤ k → ∃ cj, runTask j (connS b mc t ((.writeable :: rest, true) :: more)) 0 none = (cj, "FUEL") ∧
+        SGate g rest cj) ∧
+      ∃ ck, runTask k (connS b mc t ((.writeable :: rest, true) :: more)) 0 none = (ck, "FUEL") ∧
+        GatePoll g rest (prePoll ck k none)
+
+theorem C09Clause11_holds : C09Clause11 := by
+  unfold C09Clause11
+  exact @filter_gate_e2e
+
+end Fcgi.C09G
+end
+
+section
+namespace Fcgi.C09G
+open Fcgi Fcgi.Req Fcgi.Str Fcgi.Async Fcgi.Run Fcgi.Spec Fcgi.E2E Fcgi.C07E Fcgi.C07U
+/-- … `GateAt`: the request is writeable, the COMPLETE Stdin stream incl. its terminator was taken from the transport, the log holds no handler byte  (= `Fcgi.C09G.gateAt_facts`, `Props/C09Gate.lean`) -/
+def C09Clause12 : Prop :=
+  ∀ {g : E2E.Cfg} {r : AReq} {m : MutexSt} {t : Transport} (h : GateAt g r m t),
+    r.writeable = true ∧ (∃ G, G ++ t.input = g.X ∧ serAll g.R <+: G) ∧
+    t.input.length ≤ (serAll g.R2).length ∧ ∃ O₁, t.wlog = g.L1 ++ O₁ ∧ O₁ <+: g.K8u.O
+
+theorem C09Clause12_holds : C09Clause12 := by
+  unfold C09Clause12
+  exact @gateAt_facts
+
+end Fcgi.C09G
+end
+
+section
+namespace Fcgi.C09G
+open Fcgi Fcgi.Req Fcgi.Str Fcgi.Async Fcgi.Run Fcgi.Spec Fcgi.E2E Fcgi.C07E Fcgi.C07U
+/-- … before the gate (`WH`): no writer exists, not writeable, log = owed replies only  (= `Fcgi.C09G.wh_facts`, `Props/C09Gate.lean`) -/
+def C09Clause13 : Prop :=
+  ∀ {g : E2E.Cfg} {rest : List HOp} {c : Conn} (h : WH g rest c),
+    ∃ r hs, c.phase = .handler r hs ∧ hs.writers = [] ∧ r.writeable = false ∧
+      ∃ O₁, c.env.tr.wlog = g.L1 ++ O₁
+
+theorem C09Clause13_holds : C09Clause13 := by
+  unfold C09Clause13
+  exact @wh_facts
+
+end Fcgi.C09G
+end
+
 namespace Fcgi.Headline
 /-- **C09** — see the section comment above for the clause-by-clause reading. -/
 theorem C09_headline :
@@ -2569,8 +2831,11 @@ theorem C09_headline :
     Fcgi.C09E.C09Clause7 ∧
     Fcgi.C09.C09Clause8 ∧
     Fcgi.C09E.C09Clause9 ∧
-    Fcgi.C09E.C09Clause10 :=
-  ⟨Fcgi.C09E.C09Clause1_holds, Fcgi.C09E.C09Clause2_holds, Fcgi.C09E.C09Clause3_holds, Fcgi.C09E.C09Clause4_holds, Fcgi.C09.C09Clause5_holds, Fcgi.C09E.C09Clause6_holds, Fcgi.C09E.C09Clause7_holds, Fcgi.C09.C09Clause8_holds, Fcgi.C09E.C09Clause9_holds, Fcgi.C09E.C09Clause10_holds⟩
+    Fcgi.C09E.C09Clause10 ∧
+    Fcgi.C09G.C09Clause11 ∧
+    Fcgi.C09G.C09Clause12 ∧
+    Fcgi.C09G.C09Clause13 :=
+  ⟨Fcgi.C09E.C09Clause1_holds, Fcgi.C09E.C09Clause2_holds, Fcgi.C09E.C09Clause3_holds, Fcgi.C09E.C09Clause4_holds, Fcgi.C09.C09Clause5_holds, Fcgi.C09E.C09Clause6_holds, Fcgi.C09E.C09Clause7_holds, Fcgi.C09.C09Clause8_holds, Fcgi.C09E.C09Clause9_holds, Fcgi.C09E.C09Clause10_holds, Fcgi.C09G.C09Clause11_holds, Fcgi.C09G.C09Clause12_holds, Fcgi.C09G.C09Clause13_holds⟩
 end Fcgi.Headline
 
 
@@ -2602,6 +2867,12 @@ end Fcgi.Headline
 4. `C10.complete_when_free2` — when the mutex is free the log is a sequence of complete records
 5. `C10.completed_records2` — the completed records are exactly the writes, per-writer order kept
 6. `C10.recordOf_wellformed` — every record is well formed (padding < 8, body multiple of 8)
+7. `C10R.replies_one_holding` — the request's OWN replies: written in ONE holding of the mutex, over as many
+   polls as needed; no writer's byte falls inside them
+8. `C10R.log_whole_when_free` — … so whenever the mutex is free the log is the initial log followed by WHOLE
+   well-formed records (writer records and replies alike)
+9. `C10R.grown_whole` — the parser's reply buffer only ever grows by whole well-formed records, along any
+   history of parser operations
 
 **Modelling assumptions (obligations.json).**
 * well-behaved callers re-poll a pending write with the same buffer (a different buffer of sufficient length
@@ -2614,9 +2885,10 @@ end Fcgi.Headline
   the operation set (`drop_mid_record_hazard`)
 * `Writer.clone` is the repaired Clone impl (fix 7eb5f08; the old one is refuted: `old_clone_breaks_loginv`)
 * mutex waiter wake-ups not modelled
-* the request's own replies enter the log as the bytes one `poll_output` wrote (`Entry.reply`, an opaque
-  chunk): that they are WHOLE records needs 'the output buffer holds whole records' (C04) + 'the request
-  keeps the mutex until the buffer is empty' — not composed here; per-writer byte order is implicit in
+* the request's own replies: composed in Clauses 7–9 (`Props/C10Replies.lean`: whole records, one holding of
+  the mutex).  SCOPE caveat: the system model `Sys` has no parse operation, so the reply buffer does not
+  grow DURING a run (`StartOK`: it is `Whole` at the start; `maxConns < 2^64`); what happens to the buffer
+  between runs is the parser-side Clause 9 (`grown_whole`).  Per-writer byte order is implicit in
   `completed` being in completion order
 * buffers of size 0 are `empty_write` (registered, not a conjunct)
 
@@ -2745,6 +3017,58 @@ theorem C10Clause6_holds : C10Clause6 := by
 end Fcgi.C10
 end
 
+section
+namespace Fcgi.C10R
+open Fcgi Fcgi.Async Fcgi.C10
+open Fcgi.C12Inv (Whole AllWF whole_recordOf strParse_out OutW)
+/-- the request's OWN replies: written in ONE holding of the mutex, over as many polls as needed; no writer's byte falls inside them  (= `Fcgi.C10R.replies_one_holding`, `Props/C10Replies.lean`) -/
+def C10Clause7 : Prop :=
+  ∀ (s : Sys) (ops : List Op) (h0 : StartOK s)
+    (hwb : WellBehaved (fun _ => none) s ops),
+    ∃ D1 R D2, (completed s ops).flatMap Entry.bytes = D1 ++ R ++ D2 ∧ Whole D1 ∧ Whole D2 ∧
+      R ++ (run s ops).req.sp.output = s.req.sp.output ∧
+      (R ≠ [] → (run s ops).req.sp.output ≠ [] → (run s ops).mutex = some 0 ∧ D2 = [])
+
+theorem C10Clause7_holds : C10Clause7 := by
+  unfold C10Clause7
+  exact @replies_one_holding
+
+end Fcgi.C10R
+end
+
+section
+namespace Fcgi.C10R
+open Fcgi Fcgi.Async Fcgi.C10
+open Fcgi.C12Inv (Whole AllWF whole_recordOf strParse_out OutW)
+/-- … so whenever the mutex is free the log is the initial log followed by WHOLE well-formed records (writer records and replies alike)  (= `Fcgi.C10R.log_whole_when_free`, `Props/C10Replies.lean`) -/
+def C10Clause8 : Prop :=
+  ∀ (s : Sys) (ops : List Op) (h0 : StartOK s)
+    (hwb : WellBehaved (fun _ => none) s ops) (hfree : (run s ops).mutex = none),
+    ∃ W, (run s ops).t.wlog = s.t.wlog ++ W ∧ Whole W
+
+theorem C10Clause8_holds : C10Clause8 := by
+  unfold C10Clause8
+  exact @log_whole_when_free
+
+end Fcgi.C10R
+end
+
+section
+namespace Fcgi.C10R
+open Fcgi Fcgi.Async Fcgi.C10
+open Fcgi.C12Inv (Whole AllWF whole_recordOf strParse_out OutW)
+/-- the parser's reply buffer only ever grows by whole well-formed records, along any history of parser operations  (= `Fcgi.C10R.grown_whole`, `Props/C10Replies.lean`) -/
+def C10Clause9 : Prop :=
+  ∀ (ops : List Str.Op),
+    ∀ (p : Str.Parser), p.maxConns < 2 ^ 64 → Whole (C03S.grownAll p ops)
+
+theorem C10Clause9_holds : C10Clause9 := by
+  unfold C10Clause9
+  exact @grown_whole
+
+end Fcgi.C10R
+end
+
 namespace Fcgi.Headline
 /-- **C10** — see the section comment above for the clause-by-clause reading. -/
 theorem C10_headline :
@@ -2753,8 +3077,11 @@ theorem C10_headline :
     Fcgi.C10.C10Clause3 ∧
     Fcgi.C10.C10Clause4 ∧
     Fcgi.C10.C10Clause5 ∧
-    Fcgi.C10.C10Clause6 :=
-  ⟨Fcgi.C10.C10Clause1_holds, Fcgi.C10.C10Clause2_holds, Fcgi.C10.C10Clause3_holds, Fcgi.C10.C10Clause4_holds, Fcgi.C10.C10Clause5_holds, Fcgi.C10.C10Clause6_holds⟩
+    Fcgi.C10.C10Clause6 ∧
+    Fcgi.C10R.C10Clause7 ∧
+    Fcgi.C10R.C10Clause8 ∧
+    Fcgi.C10R.C10Clause9 :=
+  ⟨Fcgi.C10.C10Clause1_holds, Fcgi.C10.C10Clause2_holds, Fcgi.C10.C10Clause3_holds, Fcgi.C10.C10Clause4_holds, Fcgi.C10.C10Clause5_holds, Fcgi.C10.C10Clause6_holds, Fcgi.C10R.C10Clause7_holds, Fcgi.C10R.C10Clause8_holds, Fcgi.C10R.C10Clause9_holds⟩
 end Fcgi.Headline
 
 
@@ -3207,6 +3534,11 @@ end Fcgi.Headline
 10. `C12E.read_err_any_offset_e2e_unbounded` — the transport FAILS (instead of ending) at ANY byte offset:
    RET, same log and handler count as the EOF run (from `runTask_eof_err`)
 11. `C12E.read_err_in_preamble_e2e_unbounded` — a read error inside the preamble is swallowed: no handler
+12. `C12E.eof_in_last_request_e2e` — k complete keep-alive requests, then EOF at ANY offset inside the wire
+   of one more Responder request: the k are answered completely, then RET; k or k+1 handler starts; log = k
+   segments ++ byte prefix of the last answer
+13. `C12E.read_err_in_last_request_e2e` — … and the transport FAILS at that offset: RET, same log and
+   handler count as the EOF run
 
 **Modelling assumptions (obligations.json).**
 * handlerPoll fuel is proved sufficient for scripts without read-to-end loops (a harness-script bound, not a
@@ -3220,9 +3552,14 @@ end Fcgi.Headline
 
 **Not proved as theorems — carried by the differential run + oracle, or trusted.**
 * OPEN: `prefix_wellformed_full` for `max_conns ≥ 2^64` (outside the code's usize)
-* single request, canonical handlers in the e2e clauses; faults on connections with k > 1 requests and read
-  errors during `close()` (poll level: `C12E2E8`) are carried by the differential run; termination of the
-  real task is observed by the wake-accurate executor
+* single request, canonical handlers in the e2e clauses; faults in the LAST request of a keep-alive chain:
+  Clauses 12–13 (`Props/C12Chain.lean`: EOF / transport failure at any byte offset; hypotheses: the k
+  earlier requests `UReq.OKu`, the last of them leaving nothing unread, cut strictly inside the wire); STILL
+  OPEN on connections with k > 1 requests: faults addressed by ANSWER index (an erroring read / a failing
+  write at a given read/write call of the last request — `Waiting` does not expose the remaining answer
+  scripts), write faults in a chain, faults in a request that is not the last; read errors during `close()`
+  (poll level: `C12E2E8`); these are carried by the differential run (`corpus/C12_e2e_chain.txt` included);
+  termination of the real task is observed by the wake-accurate executor
 
 -/
 
@@ -3541,6 +3878,85 @@ theorem C12Clause11_holds : C12Clause11 := by
 end Fcgi.C12E
 end
 
+section
+namespace Fcgi.C12E
+open Fcgi Fcgi.Req Fcgi.Str Fcgi.Async Fcgi.Run Fcgi.Spec Fcgi.E2E Fcgi.C07E Fcgi.C07U Fcgi.C12Inv Fcgi.EofErr
+/-- k complete keep-alive requests, then EOF at ANY offset inside the wire of one more Responder request: the k are answered completely, then RET; k or k+1 handler starts; log = k segments ++ byte prefix of the last answer  (= `Fcgi.C12E.eof_in_last_request_e2e`, `Props/C12Chain.lean`) -/
+def C12Clause12 : Prop :=
+  ∀ {b mc : Nat} (x : UReq) (xs : List UReq) {p : Preamble} {recs : List Rec}
+    {content : Bytes} {srecs : List Rec} {data : Bytes} {st : ExitStatus} {t : Transport} {fuel : Nat} (j : Nat)
+    (hok : ∀ y ∈ x :: xs, y.OKu b) (hleft : ((x :: xs).getLast (by simp)).left = [])
+    (hwf : WellFormedPreamble p recs) (hrole : p.role = 1)
+    (hpairs : ∀ q ∈ p.pairs, (NV.enc q).length ≤ alignedBufsize b)
+    (hnoise : NoiseFits (alignedBufsize b) recs)
+    (hs : StreamRecs p.id 5 content srecs) (hsn : NoiseFits (alignedBufsize b) srecs)
+    (hj : j < (serAll recs ++ serAll srecs).length)
+    (hin : t.input = x.wire) (hben : Ben t) (hem : t.endMode = .pend) (hev : hsCount t.events = 0)
+    (hfuel : t.rd.length + t.wr.length + 1 ≤ fuel)
+    (hhf : wcost data.length + 12 ≤ 1000),
+    ∃ c₁ A c' O₁ O₂,
+      -- the first `k` requests: served, the task parked
+      closedLoop fuel (xs.map UReq.wire) (connS b mc t ((x :: xs).map UReq.handler ++ [(canonical data st, true)])) 0 =
+        (c₁, "STALL") ∧
+      SegsAll mc (x :: xs) A ∧ c₁.env.tr.wlog = t.wlog ++ A ∧ hsCount c₁.env.tr.events = (x :: xs).length ∧
+      Waiting (alignedBufsize b) mc [] (t.wlog ++ A) [(canonical data st, true)] (x :: xs).length
+        (evsAfter ((x :: xs).map (UReq.spec mc)) []) (ans t) c₁ ∧
+      -- the cut request
+      runTask fuel (feedEnd c₁ ((serAll recs ++ serAll srecs).take j) .eof) 0 none = (c', "RET") ∧
+      c'.phase = .finished ∧ O₁ ++ O₂ = owedStream p.id 5 mc srecs ∧
+      (∃ w, c'.env.tr.wlog = t.wlog ++ A ++ w ∧ w <+: expectedLogN p recs mc data st O₁ O₂) ∧
+      (j < (serAll recs).length → hsCount c'.env.tr.events = (x :: xs).length) ∧
+      ((serAll recs).length ≤ j → hsCount c'.env.tr.events = (x :: xs).length + 1 ∧
+        startEvent p.request ∈ c'.env.tr.events) ∧
+      ((serAll recs).length ≤ j → j < (serAll recs).length + (serAll srecs.dropLast).length + 8 →
+        ∃ C, C <+: content ∧ readEofEvent C ∈ c'.env.tr.events ∧ handlerEofEvent ∈ c'.env.tr.events) ∧
+      ((serAll recs).length + (serAll srecs.dropLast).length + 8 ≤ j →
+        readEvent content ∈ c'.env.tr.events ∧
+        c'.env.tr.wlog = t.wlog ++ A ++ expectedLogN p recs mc data st O₁ O₂)
+
+theorem C12Clause12_holds : C12Clause12 := by
+  unfold C12Clause12
+  exact @eof_in_last_request_e2e
+
+end Fcgi.C12E
+end
+
+section
+namespace Fcgi.C12E
+open Fcgi Fcgi.Req Fcgi.Str Fcgi.Async Fcgi.Run Fcgi.Spec Fcgi.E2E Fcgi.C07E Fcgi.C07U Fcgi.C12Inv Fcgi.EofErr
+/-- … and the transport FAILS at that offset: RET, same log and handler count as the EOF run  (= `Fcgi.C12E.read_err_in_last_request_e2e`, `Props/C12Chain.lean`) -/
+def C12Clause13 : Prop :=
+  ∀ {b mc : Nat} (x : UReq) (xs : List UReq) {p : Preamble} {recs : List Rec}
+    {content : Bytes} {srecs : List Rec} {data : Bytes} {st : ExitStatus} {t : Transport} {fuel : Nat} (j : Nat)
+    (hok : ∀ y ∈ x :: xs, y.OKu b) (hleft : ((x :: xs).getLast (by simp)).left = [])
+    (hwf : WellFormedPreamble p recs) (hrole : p.role = 1)
+    (hpairs : ∀ q ∈ p.pairs, (NV.enc q).length ≤ alignedBufsize b)
+    (hnoise : NoiseFits (alignedBufsize b) recs)
+    (hs : StreamRecs p.id 5 content srecs) (hsn : NoiseFits (alignedBufsize b) srecs)
+    (hj : j < (serAll recs ++ serAll srecs).length)
+    (hin : t.input = x.wire) (hben : Ben t) (hem : t.endMode = .pend) (hev : hsCount t.events = 0)
+    (hfuel : t.rd.length + t.wr.length + 1 ≤ fuel)
+    (hhf : wcost data.length + 12 ≤ 1000),
+    ∃ c₁ A ce c' O₁ O₂,
+      closedLoop fuel (xs.map UReq.wire) (connS b mc t ((x :: xs).map UReq.handler ++ [(canonical data st, true)])) 0 =
+        (c₁, "STALL") ∧
+      SegsAll mc (x :: xs) A ∧ c₁.env.tr.wlog = t.wlog ++ A ∧
+      runTask fuel (feedEnd c₁ ((serAll recs ++ serAll srecs).take j) .eof) 0 none = (ce, "RET") ∧
+      runTask fuel (feedEnd c₁ ((serAll recs ++ serAll srecs).take j) .err) 0 none = (c', "RET") ∧
+      c'.phase = .finished ∧ c'.env.tr.wlog = ce.env.tr.wlog ∧
+      hsCount c'.env.tr.events = hsCount ce.env.tr.events ∧
+      O₁ ++ O₂ = owedStream p.id 5 mc srecs ∧
+      (∃ w, c'.env.tr.wlog = t.wlog ++ A ++ w ∧ w <+: expectedLogN p recs mc data st O₁ O₂) ∧
+      (j < (serAll recs).length → hsCount c'.env.tr.events = (x :: xs).length) ∧
+      ((serAll recs).length ≤ j → hsCount c'.env.tr.events = (x :: xs).length + 1)
+
+theorem C12Clause13_holds : C12Clause13 := by
+  unfold C12Clause13
+  exact @read_err_in_last_request_e2e
+
+end Fcgi.C12E
+end
+
 namespace Fcgi.Headline
 /-- **C12** — see the section comment above for the clause-by-clause reading. -/
 theorem C12_headline :
@@ -3554,8 +3970,10 @@ theorem C12_headline :
     Fcgi.C12Fuel.C12Clause8 ∧
     Fcgi.C12E.C12Clause9 ∧
     Fcgi.C12E.C12Clause10 ∧
-    Fcgi.C12E.C12Clause11 :=
-  ⟨Fcgi.C12E.C12Clause1_holds, Fcgi.C12E.C12Clause2_holds, Fcgi.C12E.C12Clause3_holds, Fcgi.C12E.C12Clause4_holds, Fcgi.C12E.C12Clause5_holds, Fcgi.C12Inv.C12Clause6_holds, Fcgi.C12Inv.C12Clause7_holds, Fcgi.C12Fuel.C12Clause8_holds, Fcgi.C12E.C12Clause9_holds, Fcgi.C12E.C12Clause10_holds, Fcgi.C12E.C12Clause11_holds⟩
+    Fcgi.C12E.C12Clause11 ∧
+    Fcgi.C12E.C12Clause12 ∧
+    Fcgi.C12E.C12Clause13 :=
+  ⟨Fcgi.C12E.C12Clause1_holds, Fcgi.C12E.C12Clause2_holds, Fcgi.C12E.C12Clause3_holds, Fcgi.C12E.C12Clause4_holds, Fcgi.C12E.C12Clause5_holds, Fcgi.C12Inv.C12Clause6_holds, Fcgi.C12Inv.C12Clause7_holds, Fcgi.C12Fuel.C12Clause8_holds, Fcgi.C12E.C12Clause9_holds, Fcgi.C12E.C12Clause10_holds, Fcgi.C12E.C12Clause11_holds, Fcgi.C12E.C12Clause12_holds, Fcgi.C12E.C12Clause13_holds⟩
 end Fcgi.Headline
 
 
@@ -4638,8 +5056,10 @@ end Fcgi.Headline
   the first record of a later stream is held back and reported as the end of the current stream until the
   caller advances” — Clauses 7–8 (one loop iteration / `parse_head`: only a non-empty record of the ACTIVE
   stream of THIS request starts delivery), Clauses 9–11 (the held-back header: not consumed, `stream_end`
-  again on every later `parse` without new input, kept across consume/compress).  History level ('only the
-  active stream's payload is ever delivered'): `C03SI.prefix_sim`, C02 Clause 1.
+  again on every later `parse` without new input, kept across consume/compress), Clauses 13–15
+  (`Props/C18Held.lean`: the same under `parse` calls WITH NEW INPUT, and what happens after the caller
+  advances), Clause 16 (finding: records behind the held-back header wait unanswered).  History level ('only
+  the active stream's payload is ever delivered'): `C03SI.prefix_sim`, C02 Clause 1.
 
 **The conjuncts of `C18_headline`.**
 1. `C18.fromParser_stream` — the active stream starts at the first stream of the role (by definition of
@@ -4662,17 +5082,32 @@ end Fcgi.Headline
 10. `C18.held_back_repeats` — … and every later `parse` without new input reports `stream_end` again,
    delivers nothing, leaves the parser as it is
 11. `C18.held_back_persists` — … also across `consume_stream` / `compress` / `consume_output` (HeldBack
-   under NEW input: no theorem)
+   under NEW input: Clauses 13–15; formerly: no theorem)
 12. `C18.setStream_none_ok` — `set_stream(None)` is always accepted
+13. `C18H.held_under_new_input` — the held-back header under `parse` calls WITH NEW INPUT (any input,
+   chunking, dest, interleaved consume/compress): still held back, nothing delivered, nothing answered, the
+   unparsed bytes = old ++ everything fed
+14. `C18H.held_record_intact` — … the held-back record itself stays in place, unconsumed
+15. `C18H.advance_continues` — after `set_stream` advanced: what follows is the reference run on held-back
+   record ++ input fed while held ++ input fed afterwards — nothing lost or duplicated
+16. `C18H.Example.behind_answered_at_once_full_false` — FINDING: management records arriving behind the
+   held-back header are NOT answered until the caller advances (the expectation "answered by the call that
+   feeds them" is refuted)
 
 **Modelling assumptions (obligations.json).**
 * set_stream(Some(non-input-stream type)) while a stream is active hits a debug assertion in
   cmp_input_streams (release builds return SequenceError): modelled as the panic it is in debug builds and
   treated as a rejection that changes nothing
+* Props/C18Held: the held-back first record of a later stream under NEW input — `held_under_new_input` (any
+  further parse calls with any input, any dest, any interleaving of consume_stream / compress /
+  consume_output keep returning exactly `stream=0, end=true, output=0`, deliver nothing, keep the held-back
+  header in place: `hel…
 
 **Not proved as theorems — carried by the differential run + oracle, or trusted.**
 * `set_stream(Some(non-input type))` hits a debug assertion: modelled as the panic it is in debug builds
-* HeldBack under `parse` with NEW input: no theorem (differential run)
+* HeldBack under `parse` with NEW input: PROVED (Clauses 13–16); not covered: advancing with
+  `set_stream(None)`; precondition of every call `new.length ≤ p.free` (the buffer fills up while waiting:
+  `held_free_shrinks`)
 
 -/
 
@@ -4860,7 +5295,7 @@ section
 namespace Fcgi.C18
 open Fcgi Fcgi.Str
 open Fcgi.Req (Request PErr)
-/-- … also across `consume_stream` / `compress` / `consume_output` (HeldBack under NEW input: no theorem)  (= `Fcgi.C18.held_back_persists`, `Props/C18.lean`) -/
+/-- … also across `consume_stream` / `compress` / `consume_output` (HeldBack under NEW input: Clauses 13–15; formerly: no theorem)  (= `Fcgi.C18.held_back_persists`, `Props/C18.lean`) -/
 def C18Clause11 : Prop :=
   ∀ {p : Parser} (hb : p.isRecordBoundary = true) (h : HeldBack p)
     (op : Op) (hop : (∃ n, op = .consumeStream n) ∨ op = .compress ∨ ∃ n, op = .consumeOutput n),
@@ -4889,6 +5324,83 @@ theorem C18Clause12_holds : C18Clause12 := by
 end Fcgi.C18
 end
 
+section
+namespace Fcgi.C18H
+open Fcgi Fcgi.Str Fcgi.Spec
+open Fcgi.Req (Request PErr)
+/-- the held-back header under `parse` calls WITH NEW INPUT (any input, chunking, dest, interleaved consume/compress): still held back, nothing delivered, nothing answered, the unparsed bytes = old ++ everything fed  (= `Fcgi.C18H.held_under_new_input`, `Props/C18Held.lean`) -/
+def C18Clause13 : Prop :=
+  ∀ {p : Parser} (hinv : SInv p) (h : Held p) (ops : List Op)
+    (hns : NoSet ops) (hl : LegalAll p ops),
+    Held (applyOps p ops) ∧ SInv (applyOps p ops) ∧ Frozen p (applyOps p ops) (fedBytes ops) ∧
+    availOps p ops = [] ∧ deliveredOps p ops = [] ∧ C03S.grownAll p ops = [] ∧ ¬ PanicsAny p ops
+
+theorem C18Clause13_holds : C18Clause13 := by
+  unfold C18Clause13
+  exact @held_under_new_input
+
+end Fcgi.C18H
+end
+
+section
+namespace Fcgi.C18H
+open Fcgi Fcgi.Str Fcgi.Spec
+open Fcgi.Req (Request PErr)
+/-- … the held-back record itself stays in place, unconsumed  (= `Fcgi.C18H.held_record_intact`, `Props/C18Held.lean`) -/
+def C18Clause14 : Prop :=
+  ∀ {p : Parser} (hinv : SInv p) (h : Held p) (ops : List Op)
+    (hns : NoSet ops) (hl : LegalAll p ops),
+    ∃ hdr rest, hdr.length = 8 ∧ p.raw = hdr ++ rest ∧ (applyOps p ops).raw = hdr ++ (rest ++ fedBytes ops)
+
+theorem C18Clause14_holds : C18Clause14 := by
+  unfold C18Clause14
+  exact @held_record_intact
+
+end Fcgi.C18H
+end
+
+section
+namespace Fcgi.C18H
+open Fcgi Fcgi.Str Fcgi.Spec
+open Fcgi.Req (Request PErr)
+/-- after `set_stream` advanced: what follows is the reference run on held-back record ++ input fed while held ++ input fed afterwards — nothing lost or duplicated  (= `Fcgi.C18H.advance_continues`, `Props/C18Held.lean`) -/
+def C18Clause15 : Prop :=
+  ∀ {p q' : Parser} (hinv : SInv p) (h : Held p) {A B : List Op} {s' : Nat}
+    (hnA : NoSet A) (hlA : LegalAll p A)
+    (hset : (applyOps p A).setStream (some s') = .ok q') (hne : some s' ≠ p.stream)
+    (hnB : NoSet B) (hlB : LegalAll q' B) (hdr : Drained (applyOps q' B)),
+    let E' : Cfg := ⟨p.request.id, p.request.role, s', p.maxConns⟩
+    let w := p.raw ++ fedBytes A ++ fedBytes B
+    C03SI.outcome q' B = C03SI.refOutcome E' w ∧
+    (∃ lost, availOps q' B ++ lost = (refWire E' w).content ∧ (FirstErrInternal q' B → lost = [])) ∧
+    deliveredOps q' B <+: (refWire E' w).content ∧
+    (ErrFree q' B → deliveredOps q' B = (refWire E' w).content)
+
+theorem C18Clause15_holds : C18Clause15 := by
+  unfold C18Clause15
+  exact @advance_continues
+
+end Fcgi.C18H
+end
+
+section
+namespace Fcgi.C18H
+open Fcgi Fcgi.Str Fcgi.Spec
+open Fcgi.Req (Request PErr)
+namespace Example
+open Fcgi.C18
+/-- FINDING: management records arriving behind the held-back header are NOT answered until the caller advances (the expectation "answered by the call that feeds them" is refuted)  (= `Fcgi.C18H.Example.behind_answered_at_once_full_false`, `Props/C18Held.lean`) -/
+def C18Clause16 : Prop :=
+  ¬ behind_answered_at_once_full
+
+theorem C18Clause16_holds : C18Clause16 := by
+  unfold C18Clause16
+  exact @behind_answered_at_once_full_false
+
+end Example
+end Fcgi.C18H
+end
+
 namespace Fcgi.Headline
 /-- **C18** — see the section comment above for the clause-by-clause reading. -/
 theorem C18_headline :
@@ -4903,8 +5415,12 @@ theorem C18_headline :
     Fcgi.C18.C18Clause9 ∧
     Fcgi.C18.C18Clause10 ∧
     Fcgi.C18.C18Clause11 ∧
-    Fcgi.C18.C18Clause12 :=
-  ⟨Fcgi.C18.C18Clause1_holds, Fcgi.C18.C18Clause2_holds, Fcgi.C18.C18Clause3_holds, Fcgi.C18.C18Clause4_holds, Fcgi.C18.C18Clause5_holds, Fcgi.C18.C18Clause6_holds, Fcgi.C18.C18Clause7_holds, Fcgi.C18.C18Clause8_holds, Fcgi.C18.C18Clause9_holds, Fcgi.C18.C18Clause10_holds, Fcgi.C18.C18Clause11_holds, Fcgi.C18.C18Clause12_holds⟩
+    Fcgi.C18.C18Clause12 ∧
+    Fcgi.C18H.C18Clause13 ∧
+    Fcgi.C18H.C18Clause14 ∧
+    Fcgi.C18H.C18Clause15 ∧
+    Fcgi.C18H.Example.C18Clause16 :=
+  ⟨Fcgi.C18.C18Clause1_holds, Fcgi.C18.C18Clause2_holds, Fcgi.C18.C18Clause3_holds, Fcgi.C18.C18Clause4_holds, Fcgi.C18.C18Clause5_holds, Fcgi.C18.C18Clause6_holds, Fcgi.C18.C18Clause7_holds, Fcgi.C18.C18Clause8_holds, Fcgi.C18.C18Clause9_holds, Fcgi.C18.C18Clause10_holds, Fcgi.C18.C18Clause11_holds, Fcgi.C18.C18Clause12_holds, Fcgi.C18H.C18Clause13_holds, Fcgi.C18H.C18Clause14_holds, Fcgi.C18H.C18Clause15_holds, Fcgi.C18H.Example.C18Clause16_holds⟩
 end Fcgi.Headline
 
 
